@@ -136,7 +136,9 @@ def o_roundtrip(case):
                 Z = np.full((ny, nx), 2.0)
                 shape = (ny, nx)
             # integer labels: the step index, hours relative to an event (negative, zero in the middle), a countdown, hour of day across midnight
-            ts = ("2024-03-%02dT%02d:00" % (1 + t, k)) if case["str_ts"] else {"relative": t - 2, "countdown": ns - 1 - t, "hours": (22 + t) % 24}.get(case.get("int_kind"), t)
+            # string labels: naive ISO (16 characters), timezone-aware ISO with fractional seconds (32), a descriptive label (40+)
+            ts = ({"tz": "2024-03-%02dT%02d:00:00.250000+00:00" % (1 + t, k), "long": "campaign B / flight %02d / leg %02d / downwind transect" % (k, t)}
+                  .get(case.get("str_kind"), "2024-03-%02dT%02d:00" % (1 + t, k))) if case["str_ts"] else {"relative": t - 2, "countdown": ns - 1 - t, "hours": (22 + t) % 24}.get(case.get("int_kind"), t)
             conc_a, flx_a = adversarial(rng, shape), adversarial(rng, shape)
             if case.get("mixed_dtype"):
                 # the solver returns float32 fields for precision="single" whenever no complex128 phase factor promoted them
@@ -205,7 +207,11 @@ def o_roundtrip(case):
                     return fail("C18/array/%s" % var, "loaded %s at (time %d, tower %d) is not bit-identical to the saved one" % (var, t, k), None, "bit-identical", "differs", 0)
             if [str(x["timestamp"]) for x in results[n]].count(str(r["timestamp"])) > 1:
                 continue        # a repeated label selects several steps: only the positional clauses apply
-            sel = ds.sel(tower=n, time=str(r["timestamp"]))
+            try:
+                sel = ds.sel(tower=n, time=str(r["timestamp"]))
+            except KeyError:
+                return fail("C18/select-label", "tower %r / step label %r cannot be selected in the loaded dataset (time labels there: %s)" % (n, str(r["timestamp"]), [str(v) for v in ds["time"].values][:4]),
+                            None, str(r["timestamp"]), "KeyError", 0)
             if not np.array_equal(bits(sel["footprint"].values), bits(r["flx"])):
                 return fail("C18/select", "selecting tower %s / step %s does not return that tower's and step's fields" % (n, r["timestamp"]), None, "that result", "another", 0)
         if not (ds["tower_lat"].sel(tower=n).item() == towers[k].lat and ds["tower_lon"].sel(tower=n).item() == towers[k].lon
@@ -291,6 +297,7 @@ def run(rng, tier, deep):
                     continue
                 run_oracle(st, o_roundtrip, dict(towers=nt, steps=ns, three_d=three_d, seed=int(rng.integers(1 << 30)),
                                                  int_kind=[None, "relative", "countdown", "hours"][int(rng.integers(4))],
+                                                 str_kind=[None, "tz", "long"][int(rng.integers(3))],
                                                  str_ts=bool(rng.random() < 0.5), z0_forcing=bool(rng.random() < 0.4),
                                                  mixed_dtype=bool(rng.random() < 0.5), dup_ts=bool(rng.random() < 0.35), np_params=bool(rng.random() < 0.4), f32_prelude=bool(rng.random() < 0.4),
                                                  z_order=[int(v) for v in rng.permutation(3)] if (three_d and rng.random() < 0.6) else None))
